@@ -2,13 +2,15 @@
 from vlib.tok import s as S
 from checks.storegen import World, PLAIN, BLOCK_KINDS, REL_OF
 ID = 'C04'
-THEOREMS = []
+THEOREMS = ['Nix.St.unlinkAll_frame', 'Nix.St.unlinkAll_no_incoming', 'Nix.St.unlinkAll_unreachable', 'Nix.St.unlinkAll_reach_mono', 'Nix.St.removeAllLinks_spec', 'Nix.St.deleteNested_unlinks', 'Nix.St.deleteNested_victim', 'Nix.St.removeEntity_spec', 'Nix.St.deleteBlock_spec', 'Nix.St.delete_only_unlinks', 'Nix.St.removeEntity_no_dangling', 'Nix.St.unlink_frame']
 RULE = ('random entity graphs (every kind, one target linked from many holders: tag / multi-tag references, positions / extents, feature data, '
         'group members, attached sources, metadata, section links; links made before and after a reopen), then for a sequence of victims of every '
         'kind: dump, delete (by name, id or handle), dump, validity of the stale handle. The dumps are judged against each other: the victim and, '
         'for sources / sections, its whole subtree are gone, no field of any survivor mentions them, every survivor is otherwise identical and in '
         'the same order. non-trivial = a delete that removed an entity some holder pointed to or that had descendants; distinct = distinct op text.')
 TRUSTED = ['harness dump (every public getter of every entity)', 'H5Iget_name keeps finding a remaining path (removeAllLinks)']
+LEVEL_TEXT = ('Lean 4 theorems about the store model, for every store, every victim and every way of naming it: each delete entry point (blocks; sections and sources with their subtree, at every nesting depth by induction; data arrays, data frames, tags, multi tags, groups) removes exactly the links whose target lies in a set D of deleted objects, everywhere — so no object keeps a link to a deleted object and no path from anywhere reaches it (whatever held it: references, positions, extents, feature data, group membership, attached sources, metadata, section links are all hard links), while every object keeps its attributes, its kind and its other links in their order; the entity looked up is in D when the call answers true. Unlinking one name in one group (remove reference / source / member, unset metadata / link / extents) touches nothing else. The dumps around every delete of every generated graph are judged against each other (victim and subtree gone, no field mentions them, survivors identical and in order, stale handle invalid) and the model must predict the dump.')
+LEVEL_NOTE = ("Trusted: Lean kernel; the abstract HDF5 store of lean/NixModel/Store.lean (objects, attributes, ordered hard links, removeAllLinks = every link to the object goes, creation-order index) and the hand-written entity layer lean/NixModel/Entities.lean, both validated on every run: the model replays every op of every generated history and must predict the library's answer (result / exception class, looked-up ids, counts, enumerations, cross-checks) and, at every dump, the whole observable tree (observe); ids and creation times are taken from the trace; fields the store model does not carry (array data, dimension descriptors, calibration, property values, row counts) are compared between dumps of the library only; harness dump = every public getter of every entity. Not proved: that the fuel of the recursive delete (number of objects + 1) suffices for every reachable forest — a too small fuel would leave descendants linked; the tie exercises nesting depth <= 5.")
 ASSUMPTIONS = []
 
 def build(w, rng, n):
